@@ -628,8 +628,11 @@ func (s *MemoryStore) Dequeue(req DequeueRequest) (DequeueResponse, error) {
 			now = s.nowFn()
 		}
 
-		s.requeueExpiredLeasesLocked(now)
+		// Prune first, then release expired leases: the same order as the
+		// SQLite and Postgres backends, so a lease that expires is offered
+		// again (and not retention-pruned in the very same call).
 		s.maybePruneLocked(now)
+		s.requeueExpiredLeasesLocked(now)
 
 		var out []Envelope
 		for _, id := range s.order {
